@@ -36,8 +36,12 @@ read (int fd, void *buf, size_t count)
 	px.n_read ++ ;
 	if (! px_valid (fd)) { errno = EBADF ; px.bad_fd_use ++ ; return -1 ; } ;
 	if (px_eintr ()) return -1 ;
-	avail = px.fd [fd].pos < px.len ? (size_t) (px.len - px.fd [fd].pos) : 0 ;
-	n = count < avail ? count : avail ;
+	if (px.fd [fd].pos >= 0 && px.fd [fd].pos + (off_t) count <= px.len_min)
+		n = count ;
+	else
+	{	avail = px.fd [fd].pos < px.len ? (size_t) (px.len - px.fd [fd].pos) : 0 ;
+		n = count < avail ? count : avail ;
+		} ;
 #ifdef PX_FAULTY
 	{	size_t nd_rshort = nondet_u64 () ;
 		if (nd_rshort < n) n = nd_rshort ;
@@ -105,6 +109,7 @@ ftruncate (int fd, off_t length)
 {	if (! px_valid (fd)) { errno = EBADF ; px.bad_fd_use ++ ; return -1 ; } ;
 	if (length < 0 || length > PX_CAP) { errno = EINVAL ; return -1 ; } ;
 	px.len = length ;
+	if (px.len_min > length) px.len_min = length ;
 	return 0 ;
 }
 
